@@ -16,6 +16,7 @@ import (
 const modPath = "go.sia.tech/core"
 
 type Program struct {
+	specConsts map[*ssa.Global]*Term
 	Fset     *token.FileSet
 	Pkgs     []*packages.Package
 	SSA      *ssa.Program
